@@ -174,4 +174,34 @@ def getExtension (name cname : String) (T : Ty) (prop : Term) (attrs : List Stri
   [Ext.constant name T cname, Ext.theorem (cname ++ "_def") ⟨[], prop⟩]
     ++ attrs.map (fun a => Ext.attribute (cname ++ "_def") a)
 
+/-! ### sequences of `def` items (used by Props2.lean and by the driver) -/
+
+/-- the name of the new constant is none of `equals`, `implies`, `all` -/
+def nonLogicalName (name : String) : Bool := name != "equals" && name != "implies" && name != "all"
+
+/-- a `def` item as the checker sees it: constant, type, statement; `thname` is `<cname>_def` -/
+structure DefItem where
+  name : String
+  T : Ty
+  prop : Term
+  thname : String
+
+/-- names of the constants of a term -/
+def constNames : Term → List String
+  | .const n _ => [n]
+  | .comb f a => constNames f ++ constNames a
+  | .abs _ _ b => constNames b
+  | _ => []
+
+/-- items in REVERSE order of declaration (newest first): each is accepted by `Definition.parse`
+and its constant is new — it occurs in none of the earlier statements -/
+def acceptedRev : List DefItem → Bool
+  | [] => true
+  | d :: earlier => defOK d.name d.T d.prop && nonLogicalName d.name
+      && earlier.all (fun e => !(constNames e.prop).contains d.name) && acceptedRev earlier
+
+/-- the items, in order of declaration, are each accepted in the theory extended by the previous ones -/
+def accepted (items : List DefItem) : Bool := acceptedRev items.reverse
+
+
 end Holpy.C11
